@@ -378,15 +378,8 @@ func (db *Database) processPostingsForTerm(
 	for _, p := range postings {
 		doc := &db.Commands[p.docID]
 
-		// Platform filtering (skip if AllPlatforms is enabled)
-		if !options.AllPlatforms && len(doc.Platform) > 0 {
-			if !isPlatformCompatible(doc.Platform, currentPlatform) && !isCrossPlatformTool(doc.Command) {
-				continue
-			}
-		}
-
-		// Pipeline filtering
-		if options.PipelineOnly && !isPipelineCommand(doc) {
+		// Platform and pipeline filtering
+		if !isEligible(doc, currentPlatform, options) {
 			continue
 		}
 
@@ -578,14 +571,45 @@ func bm25IDF(n, df int) float64 {
 
 func isPlatformCompatible(platforms []string, current string) bool {
 	for _, p := range platforms {
-		if strings.EqualFold(p, "cross-platform") || strings.EqualFold(p, current) {
-			return true
-		}
-		if checkPlatformVariant(p, current) {
+		if strings.EqualFold(p, "cross-platform") || matchesPlatform(p, current) {
 			return true
 		}
 	}
 	return false
+}
+
+func matchesPlatform(p, current string) bool {
+	return strings.EqualFold(p, current) || checkPlatformVariant(p, strings.ToLower(current))
+}
+
+// isEligible applies the platform and pipeline filters requested in options to a command.
+func isEligible(doc *Command, currentPlatform string, options SearchOptions) bool {
+	if options.PipelineOnly && !isPipelineCommand(doc) {
+		return false
+	}
+	if options.AllPlatforms || len(doc.Platform) == 0 {
+		return true
+	}
+	inForce := options.Platforms
+	if len(inForce) == 0 {
+		inForce = []string{currentPlatform}
+	}
+	for _, p := range doc.Platform {
+		for _, f := range inForce {
+			if matchesPlatform(p, f) {
+				return true
+			}
+		}
+	}
+	if options.NoCrossPlatform {
+		return false
+	}
+	for _, p := range doc.Platform {
+		if strings.EqualFold(p, "cross-platform") {
+			return true
+		}
+	}
+	return isCrossPlatformTool(doc.Command)
 }
 
 func checkPlatformVariant(p, current string) bool {
